@@ -74,6 +74,11 @@ func Verify(g kyber.Group, public kyber.Point, msg, sig []byte) error {
 	if err := s.UnmarshalBinary(sig[pointSize:]); err != nil {
 		return err
 	}
+	// the response must be the canonical encoding of the scalar: otherwise s and s + order,
+	// two different signatures, would verify alike (and only one of them under standard EdDSA)
+	if sb, err := s.MarshalBinary(); err != nil || !bytes.Equal(sb, sig[pointSize:]) {
+		return errors.New("schnorr: non-canonical scalar in signature")
+	}
 	// recompute hash(public || R || msg)
 	h, err := hash(g, public, R, msg)
 	if err != nil {
